@@ -5,6 +5,7 @@ difference is exact), integers and mixed int/float, values exactly on a bound, o
 inside/outside, on bound +- tolerance, degenerate ranges; the 2-D test over all point pairs.
 """
 import itertools
+import math
 from fractions import Fraction as F
 
 from .. import core
@@ -92,6 +93,13 @@ def _scalar_chunk(args):
         for tol in TOLS:
             probes |= {low - tol, low + tol, high - tol, high + tol,
                        low - tol - 0.125, high + tol + 0.125}
+        # a hair's breadth on either side of every decision threshold (the thresholds are
+        # exact floats because the alphabet is dyadic; the probes are just some nearby floats)
+        for edge in sorted({low - tol for tol in TOLS} | {high + tol for tol in TOLS} |
+                           {low, high}):
+            probes |= {math.nextafter(edge, -math.inf), math.nextafter(edge, math.inf)}
+            for tiny in (1e-12, 1e-10, 1e-9, 3e-9, 1e-6):
+                probes |= {edge - tiny, edge + tiny}
         for value in sorted(probes):
             for tol in TOLS:
                 variants = [(value, low, high, tol)]
@@ -150,7 +158,8 @@ def run(ctx):
         "evaluations": total,
         "distinct_nontrivial": cnt.get("nontrivial", 0),
         "rule": "all ranges lower<=upper over a dyadic alphabet x (alphabet values + bound +- "
-                "tolerance + one quantum beyond) x 4 tolerances, as floats, ints and mixed; all "
+                "tolerance + one quantum beyond + the neighbouring floats and 1e-12..1e-6 either side "
+                "of every threshold) x 4 tolerances, as floats, ints and mixed; all "
                 "lattice points x 100 rectangles x 4 tolerances for the 2-D test; non-trivial = "
                 "value on a bound or outside the range",
         "samples": core.rotate(part.samples, ctx.seed, 4),
